@@ -145,6 +145,24 @@ def check_conformance(case, acc, sigp='c02'):
     msg, exp, cfg = isogen.build_message(case)
     enc, hx = enc_of(case), case['hex']
     kw = dict(encoding=lib_enc(case), iso_config=isogen.lib_cfg(case), hex_bitmap=hx)
+    if any(k == 'UNENC' for _, k, _ in case['f']):
+        # characters the codec cannot carry: the layout cannot represent the value - refused, never emitted in some
+        # shorter / substituted form (a codec that CAN carry them is no case of this family)
+        try:
+            for v in msg.values():
+                if isinstance(v, str):
+                    v.encode(enc)
+            return
+        except UnicodeEncodeError:
+            pass
+        try:
+            data = iso8583.dumps(copy.deepcopy(msg), **kw)
+        except Exception:
+            acc.outcome('unencodable text refused')
+            return
+        acc.viol(sigp + '.unencodable_emitted', case, 'dumps returned %d bytes' % len(data), 'refusal (exception)',
+                 'a text value holds characters the codec %s cannot carry' % enc)
+        return
     over = any(k == 'OVER' for _, k, _ in case['f'])
     if over:
         try:
@@ -473,6 +491,9 @@ def singles_cases(cfgname, enc, hx, bit, seed, extras=False):
         if pl and cls in ('var', 'pan', 'panprefix'):
             for n in ((100, 101, 999) if pl == 2 else (1000, 1001)):
                 yield {'cfg': cfgname, 'enc': enc, 'hex': hx, 'seed': seed, 'f': [[bit, 'OVER', n]]}
+        if pl and cls == 'var':
+            for i in range(6):
+                yield {'cfg': cfgname, 'enc': enc, 'hex': hx, 'seed': seed, 'f': [[bit, 'UNENC', i]]}
 
 
 def pairs_cases(cfgname, enc, hx, a, seed):
